@@ -1,4 +1,4 @@
-\* the observer accepts every behaviour of the corrected HostMap: 2 keys in one map, 2 callers x 2 calls, MaxConns 1, 2 ticks, 1 CloseIdleConnections
+\* the observer accepts every behaviour of the corrected HostMap: 2 keys in one map, 2 callers x 2 calls, MaxConns 1, 1 tick, 1 CloseIdleConnections
 CONSTANTS
   Keys = {"a", "b"}
   TLSKeys = {}
@@ -6,9 +6,9 @@ CONSTANTS
   MaxCalls = 2
   NH = 4
   MaxConns = 1
-  MaxTicks = 2
+  MaxTicks = 1
   MaxCI = 1
-  MaxReap = 1
+  MaxReap = 0
   Retries = 0
   HoldCounted = TRUE
   CIAll = TRUE
